@@ -15,6 +15,7 @@ import (
 	"os"
 	"runtime/pprof"
 	"strconv"
+	"strings"
 	"syscall"
 	"time"
 
@@ -112,6 +113,10 @@ func cmdWorker(args []string) int {
 	sc := getScenario(*prop)
 	applyMemLimit(sc)
 	kn := loadKnown(*known, *prop)
+	loadSites("")
+	if len(sitesTable) > 0 {
+		simrt.SiteHits = make([]uint32, len(sitesTable))
+	}
 	out := bufio.NewWriterSize(os.Stdout, 1<<16)
 	stats := newStats()
 	startTicks := simrt.Now()
@@ -157,12 +162,22 @@ func cmdWorker(args []string) int {
 		if res.NonTrivial {
 			nt = 1
 		}
-		fmt.Fprintf(out, "E %d %016x %d\n", i, res.FP, nt)
+		fmt.Fprintf(out, "E %d %016x %016x %d\n", i, res.FP, res.Aux, nt)
 		if done%64 == 0 {
 			flushStats()
 		}
 	}
 	flushStats()
+	if simrt.SiteHits != nil {
+		// which instrumented statements of the library this worker executed (coverage probe)
+		var sb strings.Builder
+		for id, n := range simrt.SiteHits {
+			if n > 0 {
+				fmt.Fprintf(&sb, "%x,", id)
+			}
+		}
+		fmt.Fprintf(out, "C %s\n", sb.String())
+	}
 	fmt.Fprintf(out, "F\n")
 	out.Flush()
 	return exitOK
